@@ -125,7 +125,7 @@ func c01Gen(g *simcore.Tape, thorough bool) *c01Scenario {
 	sc.Status = simcore.Pick(g, [][]string{{"passing"}, {"passing", "warning"}, {"passing", "warning", "critical"}, {"warning"}})
 	sc.Strict = g.Chance(35)
 	sc.Monitors = g.Range(1, 4)
-	sc.Poll = simcore.Pick(g, []time.Duration{0, 0, 0, 2 * time.Second})
+	sc.Poll = simcore.Pick(g, []time.Duration{0, 0, 2 * time.Second, 0, 2 * time.Second})
 	nn := g.Range(1, 3)
 	for i := 0; i < nn; i++ {
 		// node addresses: IPv4 (value 0) or an IPv6 literal (a service registered without an address of its own is
